@@ -283,6 +283,18 @@ func runC05(t *mon.T, raw json.RawMessage) {
 			t.Cover("deferred-over-existing-larger-file")
 		}
 		w := deferred.NewDeferredCarWriterForPath(p, roots, cfg.Opts()...)
+		var sf *os.File
+		if r.Intn(3) == 0 {
+			// the stream constructor over a stream that is also an io.WriterAt, with the caller's explicit
+			// WriteAsCarV1 choice (it overrides the constructor's CARv1 default): the same file must result
+			var err error
+			if sf, err = os.OpenFile(p, os.O_RDWR|os.O_CREATE|os.O_TRUNC, 0o666); err != nil {
+				panic(err)
+			}
+			defer sf.Close()
+			w = deferred.NewDeferredCarWriterForStream(sf, roots, append(cfg.Opts(), carv2.WriteAsCarV1(cfg.V1))...)
+			t.Cover("deferred-stream-that-is-a-writerat")
+		}
 		for _, b := range content.Blocks {
 			if err := w.Put(bg, string(b.Cid), b.Data); err != nil {
 				fail(err)
@@ -397,7 +409,8 @@ func genC05(g *mon.G) {
 	ipads := []uint64{0, 0, 1, 1024, 4097, 10000}
 	for i := 0; i < g.Pick(1200, 20000); i++ {
 		cfg := lab.Cfg{V1: r.Intn(4) == 0, Sorted: r.Intn(2) == 0, StoreID: r.Intn(2) == 0, WholeCID: r.Intn(3) == 0, AllowDup: r.Intn(4) == 0}
-		if !cfg.V1 {
+		if !cfg.V1 || r.Intn(2) == 0 {
+			// padding options are also given in CARv1 mode, where they must have no effect ("the file is exactly that payload")
 			cfg.DataPad = dpads[r.Intn(len(dpads))]
 			cfg.IndexPad = ipads[r.Intn(len(ipads))]
 		}
